@@ -352,7 +352,7 @@ class Term:
         def f(t:Term):
             if t.is_abs():
                 res.append(t.var_name)
-                return
+                f(t.body)
             elif t.is_comb():
                 f(t.fun)
                 f(t.arg)
